@@ -54,6 +54,11 @@ def judge_line(line, crlf=False):
             return 'accepted-invalid-header', '%r -> %r' % (
                 line, recs[1:] and recs[1].get('options'))
 
+        if getattr(err, 'linenum', None) != 1:
+            return ('error-not-positioned-at-the-header',
+                    '%r -> linenum %r (%s)' % (line, getattr(err, 'linenum',
+                                                             None), err))
+
         if len(recs) != 1:
             return 'wrong-records', '%r -> %d records' % (line, len(recs))
 
